@@ -4,6 +4,7 @@ from ._floorprop import FloorProp
 class C06(FloorProp):
     id = 'C06'
     profile = 'c06'
+    crash_every = 3
     design_ref = 'DESIGN.md section 4 / C06'
     budgets = {'quick': 8000, 'thorough': 300000}
 
